@@ -170,6 +170,14 @@ def decide(prop, mod, tier, seed, shards, results, wall, replaying=False):
     os.makedirs(evdir, exist_ok=True)
     os.makedirs(repdir, exist_ok=True)
     replay_paths = {}
+    if not replaying:
+        # witnesses of earlier runs of this property are stale
+        for fn in os.listdir(repdir):
+            if fn.startswith(prop + "-") and fn.endswith(".json"):
+                try:
+                    os.remove(os.path.join(repdir, fn))
+                except OSError:
+                    pass
     for k in new_keys:
         safe = "".join(ch if ch.isalnum() or ch in "-_." else "_" for ch in k)[:80]
         path = os.path.join(repdir, f"{prop}-{safe}.json")
